@@ -241,6 +241,12 @@ class Planner:
         force = force or {}
         a.weights = force.get("weights", r.choice(self.sw["wq"]))
         a.activations = force.get("activations", r.choice(self.sw["aq"]))
+        # keep clear of two torch CPU kernels that are unsafe in this build (see oracles_l.unsafe_stack_config)
+        from . import archs as _archs
+
+        lin_in = [s["i"] for _, s in _archs.walk_leaves(a.arch) if s["k"] == "lin"]
+        if a.weights == "qint8" and a.dtype == "bfloat16" and any(i % 4 == 0 and i % 16 != 0 for i in lin_in):
+            a.weights = r.choice([q for q in WQ if q != "qint8"])
         filt = None
         if self.sw["filter"] and r.random() < 0.5 and len(a.leaves) > 1:
             filt = [p for p, _ in a.leaves if r.random() < 0.6] or [a.leaves[0][0]]
@@ -489,3 +495,279 @@ def simplifications(plan):
             else:
                 cur[ks[-1]] = val
             yield new
+
+
+# ------------------------------------------------------------------------------------------------
+# generic history pieces used by the lifecycle profiles (C08-C12)
+
+
+def h_probe(P, ops, a, n=2):
+    """Forwards on (re)used inputs: fill / check the output memo."""
+    for i in range(n):
+        P.forward(ops, a, fresh=(len(a.inputs) <= i), fault=False)
+
+
+def h_calibrate(P, ops, a, batches=None, momentum=None, streamline=None, faults=False):
+    r = P.rng
+    nb = batches or r.randint(1, 3)
+
+    def body(bops, depth):
+        for _ in range(nb):
+            op = P.forward(bops, a, fresh=True, fault=faults, inside_block=True)
+            if "fault" in op:
+                op["catch"] = r.random() < 0.7
+    op = P.calib(ops, body, 0)
+    if momentum is not None:
+        op["momentum"] = momentum
+    if streamline is not None:
+        op["streamline"] = streamline
+    a.calibrated = True
+    return op
+
+
+def h_freeze(P, ops, a, partial_p=0.3, fault=False):
+    r = P.rng
+    op = {"op": "freeze", "dep": a.id}
+    if a.qpaths and r.random() < partial_p:
+        op["subset"] = [p for p in a.qpaths if r.random() < 0.5] or [a.qpaths[0]]
+    else:
+        a.frozen = True
+    if fault and P.sw["fault_kinds"] and r.random() < P.sw["fault_p"]:
+        op["fault"] = {"kind": "aten", "k": logu(r, 1, 120), "exc": "fault"}
+        op["catch"] = True
+    P.emit(ops, op)
+    return op
+
+
+def h_save(P, ops, a, ser=None, fault=False):
+    r = P.rng
+    fid = P.next_fid
+    P.next_fid += 1
+    op = {"op": "save", "dep": a.id, "fid": fid, "ser": ser or r.choice(["pickle_bytes", "pickle_file", "safetensors"])}
+    if fault and r.random() < 0.3:
+        op["fault"] = {"kind": "write_fail", "offset": logu(r, 1, 20000), "err": r.choice(["ENOSPC", "EIO"])}
+    P.emit(ops, op)
+    P.files[fid] = a
+    return fid
+
+
+def h_load(P, ops, fid, target=None, restart=None):
+    r = P.rng
+    src = P.files[fid]
+    a = Abs(P.next_dep)
+    P.next_dep += 1
+    for k in ("family", "in_shape", "weights", "activations", "dtype", "arch", "wcls", "leaves", "qpaths", "frozen", "calibrated"):
+        setattr(a, k, copy.deepcopy(getattr(src, k)))
+    a.quantized = True
+    a.inputs = copy.deepcopy(src.inputs)
+    op = {
+        "op": "load",
+        "fid": fid,
+        "new": a.id,
+        "target": target or r.choice(["default", "same", "same", "requantize"]),
+        "assign": r.random() < 0.3,
+        "weights_only": r.random() < 0.7,
+        "init": P.S.sub("reinit", a.id),
+    }
+    if r.random() < 0.4:
+        op["reorder"] = r.choice(["reverse", "strings_first", "perm"])
+        op["perm_seed"] = P.S.sub("perm", a.id) % 100000
+    if restart if restart is not None else r.random() < 0.4:
+        op["restart"] = True
+        P.deps.pop(src.id, None)
+    P.emit(ops, op)
+    P.deps[a.id] = a
+    return a
+
+
+def h_wupdate(P, ops, a):
+    r = P.rng
+    P.emit(ops, {"op": "wupdate", "dep": a.id, "how": r.choice(["add_", "copy_", "param_add_"]), "seed": P.S.sub("wu", P.nops) % (1 << 30), "mag": r.choice([0.5, 1.0, 0.1])})
+
+
+def h_train(P, ops, a, lr_p=0.5):
+    r = P.rng
+    desc = P.input_desc(a, fresh=r.random() < 0.6)
+    desc.pop("q", None)
+    op = {"op": "train", "dep": a.id, "input": desc, "gseed": P.S.sub("g", P.nops) % (1 << 30), "gmag": r.choice([1.0, 1.0, 0.1, 10.0])}
+    if r.random() < 0.35:
+        op["noncontig"] = True
+    if r.random() < lr_p:
+        op["lr"] = r.choice([0.1, 0.5, 1.0])
+    P.emit(ops, op)
+
+
+def lifecycle(P, ops, table, n, faults=False):
+    """A history of n top-level ops drawn from the weighted table over the live deployments."""
+    r = P.rng
+    for _ in range(n):
+        k = weighted(r, table)
+        a = P.pick(lambda a: a.quantized)
+        if a is None:
+            a = P.new_dep(ops)
+        if k == "forward":
+            P.forward(ops, a, fault=faults)
+        elif k == "probe":
+            h_probe(P, ops, a, r.randint(1, 2))
+        elif k == "calib":
+            h_calibrate(P, ops, a, faults=faults)
+        elif k == "freeze":
+            h_freeze(P, ops, a, fault=faults)
+            h_probe(P, ops, a, 1)
+        elif k == "deepcopy":
+            b = Abs(P.next_dep)
+            P.next_dep += 1
+            for kk in ("family", "in_shape", "weights", "activations", "dtype", "arch", "wcls", "leaves", "qpaths", "frozen", "calibrated", "quantized"):
+                setattr(b, kk, copy.deepcopy(getattr(a, kk)))
+            b.inputs = copy.deepcopy(a.inputs)
+            P.emit(ops, {"op": "deepcopy", "dep": a.id, "new": b.id})
+            P.deps[b.id] = b
+            h_probe(P, ops, b, 1)
+        elif k == "to_cpu":
+            P.emit(ops, {"op": "to", "dep": a.id, "how": r.choice(["to_cpu", "cpu"])})
+            h_probe(P, ops, a, 1)
+        elif k == "to_dtype":
+            nd = r.choice(DT)
+            P.emit(ops, {"op": "to", "dep": a.id, "how": "dtype", "dtype": nd})
+            a.dtype = nd
+        elif k == "wupdate":
+            if not a.frozen:
+                h_wupdate(P, ops, a)
+                P.forward(ops, a, fresh=False, fault=False)
+        elif k == "train":
+            h_train(P, ops, a)
+        elif k == "state_dict":
+            P.emit(ops, {"op": "state_dict", "dep": a.id, "keep_vars": r.random() < 0.3})
+        elif k == "save":
+            h_probe(P, ops, a, 1)
+            h_save(P, ops, a, fault=faults)
+        elif k == "saveload":
+            h_probe(P, ops, a, 1)
+            fid = h_save(P, ops, a, fault=faults)
+            b = h_load(P, ops, fid)
+            h_probe(P, ops, b, 2)
+        elif k == "load":
+            if P.files:
+                fid = r.choice(sorted(P.files))
+                b = h_load(P, ops, fid, restart=False)
+                h_probe(P, ops, b, 1)
+        elif k == "newdep":
+            if len(P.deps) < 3:
+                b = P.new_dep(ops)
+                if b.activations is not None and r.random() < 0.7:
+                    h_calibrate(P, ops, b)
+                h_probe(P, ops, b, 1)
+        elif k == "lib":
+            pass
+
+
+def prelude(P, ops, n=None, calib_p=0.75, force=None, family=None):
+    """Build/quantize 1-2 deployments, usually calibrate those with quantized activations, probe them."""
+    r = P.rng
+    out = []
+    for _ in range(n or r.choice([1, 1, 2])):
+        a = P.new_dep(ops, force=force, family=family)
+        if a.activations is not None and r.random() < calib_p:
+            h_calibrate(P, ops, a)
+        h_probe(P, ops, a, 2)
+        out.append(a)
+    return out
+
+
+def plan_c08(P):
+    r = P.rng
+    ops = []
+    prelude(P, ops)
+    table = [("forward", 8), ("calib", 2), ("freeze", 1.5), ("saveload", 1), ("wupdate", 1.5), ("newdep", 1.5), ("train", 0.7), ("deepcopy", 0.3), ("to_cpu", 0.3)]
+    lifecycle(P, ops, table, r.randint(3, 9), faults=bool(P.cfg.get("faults")))
+    return ops
+
+
+def plan_c09(P):
+    r = P.rng
+    ops = []
+    P.sw["filter"] = P.sw["filter"] and r.random() < 0.5
+    prelude(P, ops)
+    table = [("freeze", 6), ("probe", 3), ("deepcopy", 1.5), ("to_cpu", 1.5), ("saveload", 1), ("wupdate", 1), ("calib", 1), ("newdep", 1), ("state_dict", 0.5)]
+    lifecycle(P, ops, table, r.randint(3, 9), faults=bool(P.cfg.get("faults")))
+    for a in list(P.deps.values()):
+        if a.quantized:
+            if r.random() < 0.5:
+                P.emit(ops, {"op": "freeze", "dep": a.id})
+            h_probe(P, ops, a, 2)
+    return ops
+
+
+def plan_c10(P):
+    r = P.rng
+    ops = []
+    P.sw["filter"] = False
+    deps = prelude(P, ops)
+    for a in deps:
+        if r.random() < 0.5:
+            h_freeze(P, ops, a, partial_p=0.15)
+            h_probe(P, ops, a, 1)
+    table = [("saveload", 8), ("load", 1.5), ("freeze", 1), ("probe", 1), ("wupdate", 0.7), ("calib", 0.7), ("state_dict", 0.7), ("newdep", 0.7), ("save", 0.7)]
+    lifecycle(P, ops, table, r.randint(2, 6), faults=bool(P.cfg.get("faults")))
+    return ops
+
+
+def plan_c11(P):
+    r = P.rng
+    ops = []
+    P.sw["qinput"] = False
+    deps = prelude(P, ops, calib_p=0.85)
+    table = [("train", 8), ("wupdate", 3), ("forward", 2), ("freeze", 1), ("newdep", 0.7), ("calib", 0.5), ("saveload", 0.3)]
+    lifecycle(P, ops, table, r.randint(3, 9), faults=False)
+    return ops
+
+
+def plan_c12(P):
+    r = P.rng
+    ops = []
+    if None in P.sw["aq"]:
+        P.sw["aq"] = [x for x in P.sw["aq"] if x is not None] or ["qint8"]
+    P.sw["filter"] = False
+    P.sw["qinput"] = False  # the property speaks of float batches
+    st = r.choice([False, False, False, True])
+    qmax = {"qint8": 127.0, "qfloat8": 448.0, "qfloat8_e4m3fn": 448.0, "qfloat8_e5m2": 57344.0}
+    ndeps = r.choice([1, 1, 2])
+    deps = [P.new_dep(ops) for _ in range(ndeps)]
+    nctx = r.randint(1, 3)
+    faults = bool(P.cfg.get("faults"))
+    for c in range(nctx):
+        m = r.choice([0.9, 0.9, 0.5, 0.0, 0.1, 0.99, round(r.random(), 3)])
+        a = r.choice(deps)
+        nb = r.choice([1, 2, 2, 3, 4, 8])
+
+        def body(bops, depth, a=a, nb=nb):
+            base = r.choice([1e-3, 1e-2, 0.1, 1.0, 10.0, 100.0, 1e3])
+            for i in range(nb):
+                op = P.forward(bops, a, fresh=True, fault=faults, inside_block=True)
+                if "fault" in op:
+                    op["catch"] = r.random() < 0.8
+                desc = op["input"]
+                desc.pop("q", None)
+                if r.random() < 0.35 and a.activations:
+                    desc["cls"] = "peak"
+                    desc["mag"] = qmax[a.activations] * 2.0 ** r.choice([0, 0, 1, -1, -3, 2])
+                else:
+                    desc["mag"] = base * r.choice([1.0, 2.0, 4.0, 0.5, 0.25, 3.0])
+                if len(deps) > 1 and r.random() < 0.2:
+                    P.forward(bops, r.choice(deps), fresh=True, fault=False)
+
+        op = P.calib(ops, body, 0)
+        op["momentum"] = m
+        op["streamline"] = st
+        op.pop("debug", None)
+        a.calibrated = True
+        if r.random() < 0.3:
+            fid = h_save(P, ops, a)
+            b = h_load(P, ops, fid, target=r.choice(["same", "same", "requantize", "default"]), restart=True)
+            deps = [b if x is a else x for x in deps]
+        elif r.random() < 0.2:
+            P.forward(ops, a, fresh=True, fault=False)
+    return ops
+
+
+PROFILES.update({"C08": plan_c08, "C09": plan_c09, "C10": plan_c10, "C11": plan_c11, "C12": plan_c12})
